@@ -290,6 +290,24 @@ def gen_systematic():
     for dead in range(3):
         cases.append((3, [("kill", dead), ("settle",), ("multi", [0, 1, 2], None), ("settle",),
                           ("act", 0, ("reply", 50), []), ("settle",)]))
+    # multi_call with timeout T over 2-3 callees, replies scripted at staggered virtual times
+    # around T (before / after / in between): the vector is due AT T, late slots are Timeout
+    T = 3 * MS
+    for n in (2, 3):
+        for times in itertools.product([MS, 2 * MS, 3 * MS, 4 * MS, 5 * MS, None], repeat=n):
+            if all(t is None for t in times):
+                continue
+            evs = sorted([(t, c) for c, t in enumerate(times) if t is not None])
+            ops = [("multi", list(range(n)), T), ("settle",)]
+            now = 0
+            for (t, c) in evs:
+                if t > now:
+                    ops.append(("adv", t - now))
+                    now = t
+                ops.append(("act", c, ("reply", 70 + c), []))
+                ops.append(("settle",))
+            ops.append(("adv", 8 * MS - now))
+            cases.append((n, ops))
     # forward: success, dead sink, sender error, timeout
     cases.append((2, [("fwd", 0, 1, None), ("settle",), ("act", 0, ("reply", 60), []), ("settle",)]))
     cases.append((2, [("fwd", 0, 1, None), ("settle",), ("kill", 1), ("settle",), ("act", 0, ("reply", 60), []), ("settle",)]))
